@@ -26,11 +26,13 @@ type modSpec struct {
 	ExpTab   bool   `json:"exp_tab,omitempty"`   // export table 0 as "tab"
 	GlobFrom string `json:"glob_from,omitempty"` // module name the funcref global is imported from
 	ExpGlob  bool   `json:"exp_glob,omitempty"`  // export the funcref global as "g"
-	Elem     int    `json:"elem"`                // -1, or the slot of table 0 initialised with f1 by an active element segment
+	Elem     int    `json:"elem"`                // -1, or the slot of table 0 initialised by an active element segment
+	ElemImp  bool   `json:"elem_imp,omitempty"`  // the element segment names the IMPORTED function imp0 instead of f1
+	GlobInit int    `json:"glob_init,omitempty"` // own funcref global starts as 0: null, 1: ref.func f0, 2: ref.func imp0 (imported function)
 }
 
 func (s modSpec) String() string {
-	return fmt.Sprintf("{id=%d imp=%q tab=%q exptab=%v glob=%q expglob=%v elem=%d}", s.ID, s.ImpFrom, s.TabFrom, s.ExpTab, s.GlobFrom, s.ExpGlob, s.Elem)
+	return fmt.Sprintf("{id=%d imp=%q tab=%q exptab=%v glob=%q expglob=%v elem=%d elemimp=%v globinit=%d}", s.ID, s.ImpFrom, s.TabFrom, s.ExpTab, s.GlobFrom, s.ExpGlob, s.Elem, s.ElemImp, s.GlobInit)
 }
 
 const tableSlots = 3
@@ -73,7 +75,16 @@ func buildModule(s modSpec) []byte {
 		m.Imports = append(m.Imports, wasmenc.Import{Mod: s.GlobFrom, Name: "g", Kind: wasmenc.KGlobal, Desc: wasmenc.GlobalType(fr, true)})
 		gG, gTag = 0, 1
 	} else {
-		m.Globals = append(m.Globals, wasmenc.Global{Type: fr, Mut: true, Init: wasmenc.NewB().RefNull(fr).Bytes()})
+		// the initialiser may name a function (index fixed below: host.block is import 0, imp0 import 1,
+		// f0 the first local function)
+		init := wasmenc.NewB().RefNull(fr).Bytes()
+		switch {
+		case s.GlobInit == 2 && hasImp:
+			init = wasmenc.NewB().RefFunc(imp0).Bytes()
+		case s.GlobInit >= 1:
+			init = wasmenc.NewB().RefFunc(m.NumImportedFuncs()).Bytes() // f0
+		}
+		m.Globals = append(m.Globals, wasmenc.Global{Type: fr, Mut: true, Init: init})
 		gG, gTag = 0, 1
 	}
 	m.Globals = append(m.Globals, wasmenc.Global{Type: i32, Mut: true, Init: wasmenc.NewB().I32Const(0).Bytes()})
@@ -135,7 +146,11 @@ func buildModule(s modSpec) []byte {
 	}
 	m.Elems = append(m.Elems, wasmenc.DeclElemFuncs(decl))
 	if s.Elem >= 0 && s.Elem < tableSlots {
-		m.Elems = append(m.Elems, wasmenc.ActiveElemFuncs(int32(s.Elem), []uint32{f1}))
+		ef := f1
+		if s.ElemImp && hasImp {
+			ef = imp0
+		}
+		m.Elems = append(m.Elems, wasmenc.ActiveElemFuncs(int32(s.Elem), []uint32{ef}))
 	}
 	return m.Encode()
 }
